@@ -227,6 +227,7 @@ def parseOp (d : DState) : List String → Option Op
   | ["unsat_core", ex] => some (.unsatCore (lookupCons d ex))
   | ["simplify"] => some .simplify
   | ["downsize"] => some .downsize
+  | ["pickle"] => some .pickle
   | ["branch"] => some .branch
   | _ => none
 
